@@ -1,13 +1,136 @@
-(* C09 — property theorems only. *)
+(* C09 — property theorems only.  Each is closed by `exact <lemma>` and followed by Print Assumptions.
+
+   Reading guide.  `render_endpoint ec c v name tiers profiles` (Model.v) is the chain map Felix renders for one
+   endpoint in one direction: the endpoint chain (endpointIptablesChain), one chain per enforced policy and per
+   profile (ProtoRulesToIptablesRules over C08's `render_rule`), one chain per policy group that is not inlined
+   (PolicyGroupToIptablesChains).  `run_chain` evaluates it as netfilter would (Common/Ipt.v).
+   `expected` (Spec.v) is PolicyRef.endpoint_verdict - tiers in order, first allow/deny decides, pass moves on,
+   end-of-tier default, staged policies ignored, then profiles, else deny - preceded by what the chain does before
+   policy (admin-down drop, conntrack ESTABLISHED/RELATED/INVALID, VXLAN/IPIP from workloads).  `ok_result` says the
+   run ended as expected: RETURN with the accept mark set / DROP or REJECT / the allow action.
+   `rule_ok c e r` is C08's per-rule statement (rendered rules of r take r's action iff r matches). *)
 From Coq Require Import List NArith Bool Arith String.
 From Verif.Common Require Import Packet PolicyRef Ipt.
-From Verif.C08 Require Import Model.
-From Verif.C09 Require Import Model Spec ProofsStaged.
+From Verif.C08 Require Import Model Spec ProofsFilter.
+From Verif.C09 Require Import Model Spec ProofsMarks ProofsPolicy ProofsGroup ProofsEndpoint ProofsEquiv ProofsStaged ProofsModel.
 Import ListNotations.
 Open Scope N_scope.
 
-(* a policy group chain is rendered from the group's non-staged policies only *)
+(* MAIN THEOREM.  For every configuration with disjoint mark bits, either renderer flavour, flow logs on or off,
+   every layout of tiers (any default actions), groups (inlined or with their own chain, any size, any mix of
+   staged and enforced policies), policies and profiles OF ANY SIZE, both IP versions (v), every IP set contents,
+   every fuel >= 3 and every packet of version v whose drop mark is clear on entry (all other mark bits
+   arbitrary): evaluating the rendered chains from the endpoint chain ends as the reference semantics demands.
+   Hypotheses: per-rule correctness `rule_ok` for the rules of enforced policies and profiles (C08), distinct chain
+   names, and - on the pinned tree only - no Pass rule inside a profile. *)
+Theorem c09_endpoint_verdict : forall c e ec v name tiers profiles f p,
+  marks_ok c = true -> ec_type ec = TNormal ->
+  NoDup (map fst (render_endpoint ec c v name tiers profiles)) ->
+  (forall r, In r (all_rules tiers profiles) -> rule_ok c e r) ->
+  profiles_in_domain ec profiles = true ->
+  wf_packet p -> pk_ver p = v -> entry_mark_ok c p = true ->
+  ok_result ec c (expected ec (e_sets e) tiers profiles p) p
+    (run_chain (3 + f) (render_endpoint ec c v name tiers profiles) e name p) = true.
+Proof. exact endpoint_verdict_model. Qed.
+Print Assumptions c09_endpoint_verdict.
+
+(* The same for ANY chain map that holds the rendered chains under their names (e.g. a whole filter table), and
+   any failsafe chain that hands the packet back unchanged. *)
+Theorem c09_endpoint_verdict_in_table : forall c e cs v (Hm : marks_ok c = true) ec f tiers profiles p,
+  ec_type ec = TNormal ->
+  tiers_in_cs c e cs v tiers -> profiles_in_cs c e cs v ec profiles -> failsafe_ok e cs ec (S (S f)) ->
+  wfp v p -> entry_mark_ok c p = true ->
+  ok_result ec c (expected ec (e_sets e) tiers profiles p) p
+    (run (S (S (S f))) cs e (endpoint_rules ec c tiers profiles) p) = true.
+Proof.
+  intros c e cs v Hm ec f tiers profiles p Ht. apply (endpoint_exact c e cs v Hm ec); [|exact Ht].
+  unfold is_normal. rewrite Ht. reflexivity.
+Qed.
+Print Assumptions c09_endpoint_verdict_in_table.
+
+(* rule_ok is C08's theorem: for the repaired renderer for every rule of C08's domain ... *)
+Theorem c09_rule_ok_fixed : forall c e r,
+  marks_ok c = true -> c_fixed c = true -> in_domain c r = true -> rule_ok c e r.
+Proof. exact rule_ok_fixed. Qed.
+Print Assumptions c09_rule_ok_fixed.
+
+(* ... and on the pinned tree (c_fixed arbitrary) for every rule with at most two positive match blocks *)
+Theorem c09_rule_ok_few_blocks : forall c e r,
+  marks_ok c = true -> in_domain c r = true -> few_blocks r -> rule_ok c e r.
+Proof. exact rule_ok_few_blocks. Qed.
+Print Assumptions c09_rule_ok_few_blocks.
+
+(* GROUP CHAINS.  `grouped_jumps` is what the endpoint chain holds for a group with its own chain (jump if the
+   pass mark is clear; return if accepted), `inlined_jumps` what it would hold if every enforced policy of the
+   group were jumped to directly.  Entered with the verdict bits clear, both leave the endpoint chain in the state
+   `seq_result` describes for the SAME verdict - PolicyRef.policies_verdict of the group's enforced policies:
+   allow: RETURN with accept set; deny: DROP; pass: continue behind the jumps with pass set; no match: continue
+   with both clear.  The group chain is `group_rules_gen ret first`, for ANY placement of "Return on verdict"
+   rules (ret) and unconditional jumps (first) such that an unconditional jump sits at the head of the chain or
+   directly behind a return rule: every position relative to the stride, and every stride length. *)
+Theorem c09_group_equiv_inline : forall c e cs v ec (Hm : marks_ok c = true) ret first f gname pols rs p,
+  (forall k, first k = true -> k = 0%nat \/ ret k = true) ->
+  pols_in_cs c e cs v pols ->
+  lookup cs gname = Some (group_rules_gen ret first c 0 pols) ->
+  wfp v p -> st c false false (pk_mark p) ->
+  let call := run (S (S f)) cs e in
+  let vd := policies_verdict (e_sets e) (enforced (map to_policy pols)) p in
+  seq_result c vd p (go cs e call (grouped_jumps ec c gname ++ rs) p) (go cs e call rs)
+  /\ seq_result c vd p (go cs e call (inlined_jumps ec c pols ++ rs) p) (go cs e call rs).
+Proof. exact group_equiv_inline. Qed.
+Print Assumptions c09_group_equiv_inline.
+
+(* the renderer's stride of five, and any other positive stride, satisfy the placement condition *)
+Theorem c09_stride_placement_ok :
+  (forall k, stride_first k = true -> k = 0%nat \/ stride_ret k = true)
+  /\ (forall n k, any_stride_first n k = true -> k = 0%nat \/ any_stride_ret n k = true)
+  /\ (forall c pols, group_body c pols = group_rules_gen stride_ret stride_first c 0 pols)
+  /\ (forall c pols, group_body c pols = group_rules_gen (any_stride_ret 5) (any_stride_first 5) c 0 pols).
+Proof.
+  split; [exact stride_first_ok|]. split; [exact any_stride_ok|]. split; reflexivity.
+Qed.
+Print Assumptions c09_stride_placement_ok.
+
+(* STAGED POLICIES ARE INERT.  Removing every staged policy from the endpoint description (drop_staged) changes
+   neither the rendered chain map (not one rule) nor the reference verdict; so whatever a staged policy contains,
+   wherever it sits (alone in a group, between enforced policies, across a stride boundary), the verdict is that
+   of the endpoint without it. *)
+Theorem c09_staged_inert : forall ec c v name tiers profiles,
+  render_endpoint ec c v name (map drop_staged tiers) profiles = render_endpoint ec c v name tiers profiles
+  /\ forall s p, ref_verdict s (map drop_staged tiers) profiles p = ref_verdict s tiers profiles p.
+Proof. intros. split; [apply staged_inert_render|intros; apply staged_inert_ref]. Qed.
+Print Assumptions c09_staged_inert.
+
+(* a policy group chain is rendered from the group's enforced policies only *)
 Theorem c09_group_chain_ignores_staged : forall c pols,
   group_body c pols = group_body c (nonstaged pols).
 Proof. intros. apply group_rules_nonstaged. Qed.
 Print Assumptions c09_group_chain_ignores_staged.
+
+(* THE CODE AS PINNED violates the property when a profile holds a Pass rule: the endpoint chain jumps to profile
+   chains without clearing the pass mark, so after a tier passed the packet the "return if pass mark set" half of
+   the profile's first Pass rule fires although that rule does not match, and the profile's later Allow rule is
+   never reached.  Witness: one tier whose policy passes everything, one profile [pass udp; allow], a TCP packet:
+   the reference allows, the rendered chains drop.  All rules have at most two positive blocks (rule_ok holds). *)
+Theorem c09_profile_pass_refuted_unfixed :
+  exists c e ec tiers profiles p,
+    ec_profile_fix ec = false /\ marks_ok c = true /\ ec_type ec = TNormal
+    /\ NoDup (map fst (render_endpoint ec c (pk_ver p) "ep" tiers profiles))
+    /\ (forall r, In r (all_rules tiers profiles) -> few_blocks r /\ in_domain c r = true)
+    /\ wf_packet p /\ entry_mark_ok c p = true
+    /\ ref_verdict (e_sets e) tiers profiles p = VAllow
+    /\ (exists p', run_chain 4 (render_endpoint ec c (pk_ver p) "ep" tiers profiles) e "ep" p = RDone FDrop p')
+    /\ ok_result ec c (expected ec (e_sets e) tiers profiles p) p
+         (run_chain 4 (render_endpoint ec c (pk_ver p) "ep" tiers profiles) e "ep" p) = false.
+Proof. exact profile_pass_refuted_unfixed. Qed.
+Print Assumptions c09_profile_pass_refuted_unfixed.
+
+(* the hypotheses of the main theorem are satisfiable by a non-trivial endpoint: the witness above with the fix *)
+Example c09_endpoint_verdict_hyps_satisfiable :
+  marks_ok (ProofsModel.cfg0' ) = true
+  /\ NoDup (map fst (render_endpoint (ec_w true) ProofsModel.cfg0' V4 "ep" tiers_w profiles_w))
+  /\ profiles_in_domain (ec_w true) profiles_w = true
+  /\ (forall r, In r (all_rules tiers_w profiles_w) -> rule_ok ProofsModel.cfg0' env_w r)
+  /\ wf_packet pkt_w /\ entry_mark_ok ProofsModel.cfg0' pkt_w = true
+  /\ List.length (render_endpoint (ec_w true) ProofsModel.cfg0' V4 "ep" tiers_w profiles_w) = 3%nat.
+Proof. exact ProofsModel.hyps_satisfiable. Qed.
